@@ -9,3 +9,12 @@ mod rotate;
 
 pub use self::core::{EXTRA_LEN, TAG_LEN};
 pub use common::*;
+
+#[cfg(dswd_vpncloud_verif)]
+pub mod verif_exports {
+    pub use super::{
+        core::{create_dummy_pair, CryptoCore},
+        init::{InitResult, InitState, CLOSING, STAGE_PENG, STAGE_PING, STAGE_PONG, WAITING_TO_CLOSE},
+        rotate::{RotatedKey, RotationMessage, RotationState},
+    };
+}
